@@ -64,6 +64,7 @@ struct Ctx {
 	bool badUtf = false;            // fault scenario: 8-bit strings contain ill-formed UTF-8
 	bool badEnum = false;           // fault scenario: enum values that are not registered
 	bool ragged = false;            // fault scenario: CSV rows with different key sets
+	long padLen = -1;               // exact length (ASCII) of the `pad` member of the Padded models: shifts everything behind it across the reader's buffer boundary
 };
 
 // ---------------------------------------------------------------- enum
@@ -111,6 +112,7 @@ inline uint32_t genCp(vh::Rng& r, const Ctx& c) {
 		else if (k < 90) cp = uint32_t(r.range(0x800, 0xFFFF));
 		else cp = uint32_t(r.range(0x10000, 0x10FFFF));
 		if (cp >= 0xD800 && cp <= 0xDFFF) continue;
+		if (cp == 0 && !r.chance(1, 8)) continue;     // U+0000 is kept rare: a BOM-less UTF-8 stream with a zero byte is taken for UTF-16 (recorded finding) and would hide everything else
 		if (c.xmlText && (!isXmlChar(cp) || cp == 0x0D)) continue;   // CR is normalised by every XML parser (XML 1.0 2.11)
 		return cp;
 	}
@@ -522,6 +524,23 @@ struct Flaky {
 struct FlakyHolder {
 	std::vector<Flaky> items; int32_t tail = 0;
 	template <class V> void visit(V& v) { v("items", items); v("tail", tail); }
+	MZ_SERIALIZE
+};
+
+// models whose first member is a string of controllable length (alignment sweeps of the chunked stream readers)
+struct PadStr { std::string v; };
+inline void gen(vh::Rng& r, PadStr& p, const Ctx& c) { if (c.padLen >= 0) p.v.assign(size_t(c.padLen), 'p'); else genString(r, p.v, c); }
+inline std::string desc(const PadStr& p, const Ctx& c) { return desc(p.v, c); }
+template <> struct ShapeOf<PadStr> { static std::string get(const Ctx& c) { return shape<std::string>(c); } };
+template <class A, class K> bool Serialize(A& a, K&& k, PadStr& p) { return Serialize(a, std::forward<K>(k), p.v); }
+struct Padded {
+	PadStr pad; int64_t big = 0; std::u16string wide; double d = 0; std::vector<std::string> vs; std::map<std::string, int32_t> m; tp_ms t; std::vector<uint8_t> bin; std::optional<std::string> os; Inner in; uint16_t tail = 0;
+	template <class V> void visit(V& v) { v("pad", pad); v("big", big); v("wide", wide); v("d", d); v("vs", vs); v("m", m); v("t", t); v("bin", bin); v("os", os); v("in", in); v("tail", tail); }
+	MZ_SERIALIZE
+};
+struct CsvPadded {
+	PadStr pad; int32_t id = 0; std::string name; std::u16string wide; double val = 0; std::string last;
+	template <class V> void visit(V& v) { v("pad", pad); v("id", id); v("name", name); v("wide", wide); v("val", val); v("last", last); }
 	MZ_SERIALIZE
 };
 
